@@ -117,6 +117,11 @@ def check_C01(chk):
             if k % 5 == 1:
                 # ... and one holding several regions of DIFFERENT lengths and contents, next to endpoints: each at its own position
                 cases.append({"id": next(nid), "len": L, "nsend": 1 + k % 2, "nrecv": k % 2, "nshm": 2 + k % 4, "level": "typed"})
+        if S == 4096:
+            # values whose endpoints and regions TOGETHER exceed what one message carries although neither kind does on its own: refused
+            # whole (an accepted value arrives complete - there is no in-between)
+            for ns, nm in ((40, 40), (64, 1), (33, 32), (1, 64)):
+                cases.append({"id": next(nid), "len": 100, "nsend": ns, "nrecv": 0, "nshm": nm, "level": "typed"})
         # a few transient-refusal patterns too: "does not depend on how the transport happens to split the payload"
         for pat in ("1", "01", "001", "0101", "2", "02", "002", "012", "0102", "03", "004", "0013"):
             for L in (lens[len(lens) // 2], lens[-1], F.ffs(Sv) + 3 * F.fs(Sv) + 11):
@@ -137,7 +142,7 @@ def check_C01(chk):
             c.update(nsend=0, nrecv=0, nshm=0)
     jobs.append((bins["inprocess"], None, inproc, "inprocess", False))
     items = run_parallel(jobs)
-    fails, bad = judge(chk, items, lambda it: not it["case"].get("faults") and not it["case"].get("rintr"), "c01", near_boundary)
+    fails, bad = judge(chk, items, lambda it: not it["case"].get("faults") and not it["case"].get("rintr") and F.nfds_of(it["case"]) <= 64, "c01", near_boundary)
     chk.coverage["rule"] = ("frag driver: per effective SO_SNDBUF value S (shim-reported) every length in {0,1,7,8,9} u {k*cap+d, k*fs+d, "
                             "cap+(k-1)*fs+d, k*(cap+8)+d : k=1..4} (d dense for S=4096 and the system default, 11 offsets otherwise) "
                             "plus random lengths, at platform / bytes / typed level, default + memfd + in-process builds; "
